@@ -399,12 +399,31 @@ type event struct {
 	m   ipsetmember.IPSetMember
 }
 
+// probeDupProfile: outside the generator's domain (profile ID lists are kept duplicate free there): a host
+// endpoint whose profile list names the same profile twice, created and deleted again.
+func probeDupProfile() (panicked string) {
+	defer func() {
+		if r := recover(); r != nil {
+			panicked = fmt.Sprint(r)
+		}
+	}()
+	idx := labelindex.NewSelectorAndNamedPortIndex(false)
+	key := model.HostEndpointKey{Hostname: "h", EndpointID: "dup"}
+	idx.OnUpdate(api.Update{KVPair: model.KVPair{Key: key, Value: &model.HostEndpoint{
+		ExpectedIPv4Addrs: []calinet.IP{{IP: net.ParseIP("10.0.0.1").To4()}},
+		ProfileIDs:        []string{"p", "p"},
+	}}})
+	idx.OnUpdate(api.Update{KVPair: model.KVPair{Key: key}})
+	return ""
+}
+
 func main() {
 	n := flag.Int("n", 100, "cases")
 	seed := flag.Uint64("seed", 1, "seed")
 	flag.Parse()
 	r := &rng{s: *seed}
 	enc := json.NewEncoder(os.Stdout)
+	_ = enc.Encode(map[string]any{"probe": "dup-profile", "panic": probeDupProfile()})
 
 	for ci := 0; ci < *n; ci++ {
 		sup := r.chance(50)
